@@ -4,7 +4,9 @@ mod kindv;
 mod objv;
 mod orderv;
 mod parsev;
+mod printv;
 mod proj;
+mod unordv;
 mod util;
 
 use util::*;
@@ -25,6 +27,8 @@ fn main() {
 				for_each_record(path, |rec| match rec["k"].as_str() {
 					Some("parse") => parsev::replay_parse(&mut rep, &rec),
 					Some("obj") => objv::replay_obj(&mut rep, &mut ost, &rec),
+					Some("print") => printv::replay_print(&mut rep, &rec),
+					Some("uneq") => unordv::replay_uneq(&mut rep, &rec),
 					Some("kind_set") => kindv::replay_set(&mut rep, &rec),
 					Some("kind_ops") => kindv::replay_ops(&mut rep, &rec),
 					Some("kind_iter") => kindv::replay_iter(&mut rep, &rec),
@@ -39,6 +43,8 @@ fn main() {
 		}
 		"record-obj" => objv::record(&args),
 		"record-order" => orderv::record(&args),
+		"record-print" => printv::record(&args),
+		"record-unordered" => unordv::record(&args),
 		other => tool_error(&format!("unknown subcommand {other}")),
 	}
 }
